@@ -826,16 +826,19 @@ def mon_c07(spec, run):
     for s, o in state.items():
         stage = 1 + order.index(s)
         bseq = barriers[stage] if stage < len(barriers) else None
+        # the object is constructed after the previous stage's synchronisation reply has been processed: what the device sent before that
+        # reply (the detection stage's AVAIL answer, say) was handled before the object existed and is not "an answer to its GET"
+        prev = barriers[stage - 1] if stage - 1 < len(barriers) else 0
         sent = {}
         for q, t, l, c in dl:
             m = _LINE.fullmatch(l)
-            if m and m.group(1) == s and q < r0["seq"] and c is not None and c.endswith("=?"):
+            if m and m.group(1) == s and prev < q < r0["seq"] and c is not None and c.endswith("=?"):
                 sent.setdefault(m.group(2), []).append((q, m.group(3)))
         # unsolicited / echo lines for the same function may legitimately replace the answer
         other = {}
         for q, t, l, c in dl:
             m = _LINE.fullmatch(l)
-            if m and m.group(1) == s and q < r0["seq"]:
+            if m and m.group(1) == s and prev < q < r0["seq"]:
                 other.setdefault(m.group(2), []).append((q, m.group(3)))
         for fn, vals in sent.items():
             if fn not in spec.get("readable", {}).get(s, [fn]) or fn == "VERSION" or (s == "SYS" and fn == "MODELNAME"):
